@@ -259,7 +259,8 @@ def _get_uri_prefix_to_luids(
             #  but the GitHub thing is such an annoyance...
             continue
         for delimiter in delimiters:
-            if delimiter not in uri:
+            # (an empty delimiter delimits nothing, and str.rsplit would raise on it)
+            if not delimiter or delimiter not in uri:
                 continue
             uri_prefix, luid = uri.rsplit(delimiter, maxsplit=1)
             if luid.isalnum():
